@@ -1,9 +1,12 @@
 package c37
 
 import (
+	"bytes"
 	"fmt"
 	"hash/fnv"
+	"math/rand"
 	"net"
+	"net/netip"
 	"runtime"
 	"sort"
 	"strings"
@@ -26,11 +29,36 @@ type nodeT struct {
 	pub  base.Publickey
 }
 
-type slot struct {
-	node int
+// A member address is the logical (ip, port) pair. Go has several byte forms
+// of the same address (4-byte vs 16-byte IPv4-in-IPv6 net.IP; literal vs
+// parsed vs resolved vs netip-derived values): every form of one slot is the
+// same address (same canonical id, IP.Equal, String() equal, no zone). Every
+// operation and every probe draws the form of its address argument
+// independently of the form the address joined in.
+type addrForm struct {
+	name string
 	udp  *net.UDPAddr
-	id   string // ip:port
+	ckey string // evidence counter key
 }
+
+type slot struct {
+	node  int
+	id    string // canonical logical address: netip unmapped ip + port
+	v6    bool
+	forms []addrForm
+}
+
+// canon: the logical address of a udp address (IPv4-mapped == IPv4).
+func canon(udp *net.UDPAddr) string {
+	a, ok := netip.AddrFromSlice(udp.IP)
+	if !ok {
+		return "invalid-ip/" + udp.String()
+	}
+	return netip.AddrPortFrom(a.Unmap(), uint16(udp.Port)).String()
+}
+
+// sameBytes: both values hold the ip in the same byte form.
+func sameBytes(a, b *net.UDPAddr) bool { return bytes.Equal(a.IP, b.IP) }
 
 var (
 	nodes   []nodeT
@@ -49,52 +77,146 @@ func node(i int) nodeT {
 	return nodes[i]
 }
 
-func mkslot(n, j int) slot {
-	udp := &net.UDPAddr{IP: net.IPv4(10, 37, byte(n+1), byte(j+1)), Port: 4000 + n*16 + j}
-	return slot{node: n, udp: udp, id: fmt.Sprintf("%s:%d", udp.IP.String(), udp.Port)}
+func mkslot(n, j int, v6 bool) slot {
+	port := 4000 + n*16 + j
+	s := slot{node: n, v6: v6}
+	add := func(name string, udp *net.UDPAddr) {
+		s.forms = append(s.forms, addrForm{name: name, udp: udp, ckey: "addr_arg_form_" + name})
+	}
+	resolve := func(hostport string) *net.UDPAddr {
+		udp, err := net.ResolveUDPAddr("udp", hostport) // ip literal: no lookup involved
+		if err != nil {
+			panic(fmt.Sprintf("harness: resolve %q: %v", hostport, err))
+		}
+		return udp
+	}
+	if !v6 {
+		b4 := [4]byte{10, 37, byte(n + 1), byte(j + 1)}
+		text := fmt.Sprintf("%d.%d.%d.%d", b4[0], b4[1], b4[2], b4[3])
+		add("v4-4byte", &net.UDPAddr{IP: net.IP{b4[0], b4[1], b4[2], b4[3]}, Port: port})
+		add("v4-16byte-mapped", &net.UDPAddr{IP: net.IPv4(b4[0], b4[1], b4[2], b4[3]), Port: port})
+		add("v4-parsed-text", &net.UDPAddr{IP: net.ParseIP(text), Port: port})
+		add("v4-resolved-string", resolve(fmt.Sprintf("%s:%d", text, port)))
+		add("v4-netip-unmapped", net.UDPAddrFromAddrPort(netip.AddrPortFrom(netip.AddrFrom4(b4), uint16(port))))
+		add("v4-netip-mapped", net.UDPAddrFromAddrPort(netip.AddrPortFrom(netip.AddrFrom16(netip.AddrFrom4(b4).As16()), uint16(port))))
+	} else {
+		b16 := [16]byte{0xfd, 0x37, 0, 0, 0, 0, 0, 0, 0, 0, 0, 0, 0, byte(n + 1), 0, byte(j + 1)}
+		add("v6-16byte", &net.UDPAddr{IP: append(net.IP{}, b16[:]...), Port: port})
+		add("v6-parsed-text", &net.UDPAddr{IP: net.ParseIP(fmt.Sprintf("fd37:0:0:0:0:0:%x:%x", n+1, j+1)), Port: port})
+		add("v6-resolved-string", resolve(fmt.Sprintf("[fd37::%x:%x]:%d", n+1, j+1, port)))
+		add("v6-netip", net.UDPAddrFromAddrPort(netip.AddrPortFrom(netip.AddrFrom16(b16), uint16(port))))
+	}
+	s.id = canon(s.forms[0].udp)
+	for _, f := range s.forms { // harness self-check: all forms are one and the same address
+		if f.udp == nil || f.udp.Zone != "" || f.udp.Port != port || canon(f.udp) != s.id || !f.udp.IP.Equal(s.forms[0].udp.IP) || f.udp.String() != s.forms[0].udp.String() {
+			panic(fmt.Sprintf("harness: form %s of %s is not the same address: %#v", f.name, s.id, f.udp))
+		}
+	}
+	return s
 }
+
+// universeV6: which (node, index) positions of the address universe of this
+// run hold an IPv6 address: one of every four, which ones is fixed by the seed
+// (a fixed universe keeps the number of Member values to build bounded).
+var v6off int // drawn once per run, before any history
+
+func universeV6(n, j int) bool { return (n+j+v6off)%4 == 3 }
 
 // members are immutable values; they are built once by the real NewMember
 // (its JSON meta encoding is very slow under the race detector) and reused:
-// 3 distinct Member values ("generations") per address.
-var (
-	memberCache   = map[string]quicmemberlist.Member{}
-	memberCacheMu sync.Mutex
-)
+// per address and node: 3 distinct Member values ("generations") for an IPv6
+// address, 2 for each of the two byte forms of an IPv4 address (the Member
+// keeps the *net.UDPAddr it was built with).
+// Each value is built once; different values are built concurrently by the
+// workers (the cache lock is not held while NewMember runs).
+type memberEntry struct {
+	once sync.Once
+	m    quicmemberlist.Member
+}
 
-func mkmember(s slot, n, gen int) quicmemberlist.Member {
-	name := fmt.Sprintf("%s@node%d#%d", s.id, n, gen%3)
-	memberCacheMu.Lock()
-	defer memberCacheMu.Unlock()
-	if m, ok := memberCache[name]; ok {
-		return m
+var memberCache sync.Map // name -> *memberEntry
+
+func mkmember(s slot, n, gen, form int) quicmemberlist.Member {
+	udp := s.forms[form].udp
+	g := gen % 3
+	if !s.v6 {
+		g = gen % 2
 	}
-	m, err := quicmemberlist.NewMember(name, s.udp, node(n).addr, node(n).pub, "", true)
-	if err != nil {
-		panic(err)
+	name := fmt.Sprintf("%s@node%d#%d/%dB", s.id, n, g, len(udp.IP))
+	v, ok := memberCache.Load(name)
+	if !ok {
+		v, _ = memberCache.LoadOrStore(name, &memberEntry{})
 	}
-	memberCache[name] = m
-	return m
+	e := v.(*memberEntry) //nolint:forcetypeassert // only *memberEntry is stored
+	e.once.Do(func() {
+		nd := node(n)
+		m, err := quicmemberlist.NewMember(name, udp, nd.addr, nd.pub, "", true)
+		if err != nil {
+			panic(err)
+		}
+		e.m = m
+	})
+	return e.m
 }
 
 // ---------------------------------------------------------------------------
 // model: addr -> present (+ generations joined since last leave)
 
 type model struct {
-	slots   []slot
-	present []bool
-	gens    []map[string]bool // member names set since the last leave / node change
-	cur     []int             // node the address joined under last (home node before any join)
-	prev    []int             // node it was under before the last node change
-	nnodes  int
+	slots    []slot
+	present  []bool
+	gens     []map[string]bool // member names set since the last leave / node change
+	cur      []int             // node the address joined under last (home node before any join)
+	prev     []int             // node it was under before the last node change
+	joinedAs []int             // form of the address argument of its last join (-1: never joined)
+	nnodes   int
+}
+
+// other: form f of the address is another byte form than the one the address
+// (last) joined in.
+func (m *model) other(slot, f int) bool {
+	j := m.joinedAs[slot]
+	return j >= 0 && !sameBytes(m.slots[slot].forms[j].udp, m.slots[slot].forms[f].udp)
+}
+
+const (
+	opOther    = "+other-ip-form"       // the operation named its address in another byte form than the last join
+	probeOther = ":probe=other-ip-form" // the lookup named the address in another byte form than the last join
+)
+
+func sfx(other bool, s string) string {
+	if other {
+		return s
+	}
+	return ""
+}
+
+// picker draws the form(s) a probe names an address in.
+type picker struct {
+	rng *rand.Rand
+	buf []int
+}
+
+func (pk *picker) one(s slot) int { return pk.rng.Intn(len(s.forms)) }
+
+// forms: every form (all) or one drawn form.
+func (pk *picker) forms(s slot, all bool) []int {
+	pk.buf = pk.buf[:0]
+	if !all {
+		return append(pk.buf, pk.one(s))
+	}
+	for f := range s.forms {
+		pk.buf = append(pk.buf, f)
+	}
+	return pk.buf
 }
 
 func newModel(slots []slot, nnodes int) *model {
 	m := &model{slots: slots, present: make([]bool, len(slots)), gens: make([]map[string]bool, len(slots)), nnodes: nnodes}
-	m.cur, m.prev = make([]int, len(slots)), make([]int, len(slots))
+	m.cur, m.prev, m.joinedAs = make([]int, len(slots)), make([]int, len(slots)), make([]int, len(slots))
 	for i := range m.gens {
 		m.gens[i] = map[string]bool{}
-		m.cur[i], m.prev[i] = slots[i].node, slots[i].node
+		m.cur[i], m.prev[i], m.joinedAs[i] = slots[i].node, slots[i].node, -1
 	}
 	return m
 }
@@ -124,6 +246,7 @@ type op struct {
 	Slot int
 	Gen  int
 	Node int // node the address joins under (joins); node it is under (leaves, informational)
+	Form int // which form of the address the operation's argument is in
 }
 
 func (o op) isJoin() bool { return o.Kind != "leave" && o.Kind != "leave-absent" }
@@ -159,21 +282,42 @@ func dir(got, want int) string {
 // kind of the operation just executed (sequential phase) or "quiescence".
 // listsOK=false means the per-node lists already deviated in this history and
 // are not judged again (later mismatches are consequences of the first one).
-func sweep(r *vlib.Run, c counts, p *quicmemberlist.VerifMembersPool, m *model, by string, hist func() any, listsOK *bool, prefix string, traverse bool) {
+// Every address-keyed probe names the address in a form drawn by pk (allForms:
+// in every form), independent of the form it joined in.
+func sweep(r *vlib.Run, c counts, p *quicmemberlist.VerifMembersPool, m *model, by string, hist func() any, listsOK *bool, prefix string, traverse bool, pk *picker, allForms bool) {
+	note := func(i, f int) (other bool) {
+		c[m.slots[i].forms[f].ckey]++
+		if other = m.other(i, f); other {
+			if m.present[i] {
+				c["probes_other_ip_form_of_present"]++
+			} else {
+				c["probes_other_ip_form_of_absent"]++
+			}
+		}
+		return other
+	}
 	// presence, lookup
 	for i, s := range m.slots {
-		c["obs_Exists"]++
-		if got := p.Exists(s.udp); got != m.present[i] {
-			viol(r, c, fmt.Sprintf("%sExists:got=%v:want=%v:by=%s", prefix, got, m.present[i], by), fmt.Sprintf("Exists(%s)=%v but the address is present=%v (joined and not left)", s.id, got, m.present[i]), hist)
+		for _, f := range pk.forms(s, allForms) {
+			udp, fn := s.forms[f].udp, s.forms[f].name
+			po := sfx(note(i, f), probeOther)
+			c["obs_Exists"]++
+			if got := p.Exists(udp); got != m.present[i] {
+				viol(r, c, fmt.Sprintf("%sExists:got=%v:want=%v:by=%s%s", prefix, got, m.present[i], by, po), fmt.Sprintf("Exists(%s as %s)=%v but the address is present=%v (joined and not left)", s.id, fn, got, m.present[i]), hist)
+			}
 		}
-		c["obs_Get"]++
-		mem, found := p.Get(s.udp)
-		switch {
-		case found != m.present[i]:
-			viol(r, c, fmt.Sprintf("%sGet:found=%v:present=%v", prefix, found, m.present[i]), fmt.Sprintf("Get(%s) found=%v but the address is present=%v", s.id, found, m.present[i]), hist)
-		case found:
-			if mem == nil || !m.gens[i][mem.Name()] || !mem.Address().Equal(node(m.cur[i]).addr) {
-				viol(r, c, prefix+"Get:wrong-member", fmt.Sprintf("Get(%s) returned a member that was not joined at this address since its last leave: %v", s.id, mem), hist)
+		for _, f := range pk.forms(s, allForms) {
+			udp, fn := s.forms[f].udp, s.forms[f].name
+			po := sfx(note(i, f), probeOther)
+			c["obs_Get"]++
+			mem, found := p.Get(udp)
+			switch {
+			case found != m.present[i]:
+				viol(r, c, fmt.Sprintf("%sGet:found=%v:present=%v%s", prefix, found, m.present[i], po), fmt.Sprintf("Get(%s as %s) found=%v but the address is present=%v", s.id, fn, found, m.present[i]), hist)
+			case found:
+				if mem == nil || !m.gens[i][mem.Name()] || !mem.Address().Equal(node(m.cur[i]).addr) {
+					viol(r, c, prefix+"Get:wrong-member"+po, fmt.Sprintf("Get(%s as %s) returned a member that was not joined at this address since its last leave: %v", s.id, fn, mem), hist)
+				}
 			}
 		}
 	}
@@ -184,7 +328,8 @@ func sweep(r *vlib.Run, c counts, p *quicmemberlist.VerifMembersPool, m *model, 
 		viol(r, c, fmt.Sprintf("%sLen:%s:by=%s", prefix, dir(got, want), by), fmt.Sprintf("Len()=%d, present members=%d", got, want), hist)
 	}
 	// Traverse walks all 512 shards of the pool: done every few steps and at
-	// the end of every history
+	// the end of every history. Listed members are identified by their
+	// logical address, whatever form their Addr() is in.
 	for i, s := range m.slots {
 		if !traverse {
 			break
@@ -192,7 +337,7 @@ func sweep(r *vlib.Run, c counts, p *quicmemberlist.VerifMembersPool, m *model, 
 		if i == 0 {
 			c["obs_Traverse"]++
 			p.Traverse(func(mem quicmemberlist.Member) bool {
-				seen[fmt.Sprintf("%s:%d", mem.Addr().IP.String(), mem.Addr().Port)]++
+				seen[canon(mem.Addr())]++
 				return true
 			})
 		}
@@ -200,7 +345,7 @@ func sweep(r *vlib.Run, c counts, p *quicmemberlist.VerifMembersPool, m *model, 
 		delete(seen, s.id)
 		switch {
 		case n > 1:
-			viol(r, c, prefix+"Traverse:duplicate", fmt.Sprintf("Traverse listed %s %d times", s.id, n), hist)
+			viol(r, c, prefix+"Traverse:duplicate:by="+by, fmt.Sprintf("Traverse listed %s %d times", s.id, n), hist)
 		case n == 1 && !m.present[i]:
 			viol(r, c, prefix+"Traverse:lists-absent:by="+by, fmt.Sprintf("Traverse listed %s which is not present", s.id), hist)
 		case n == 0 && m.present[i]:
@@ -232,27 +377,31 @@ func sweep(r *vlib.Run, c counts, p *quicmemberlist.VerifMembersPool, m *model, 
 				continue
 			}
 			probed[n] = true
-			c["obs_MembersLenOthers"]++
 			wantLen := m.nodeLen(n)
 			wantFound := m.present[i] && m.cur[i] == n
 			wantOthers := wantLen
 			if wantFound {
 				wantOthers--
 			}
-			gl, go_, gf := p.MembersLenOthers(node(n).addr, s.udp)
-			switch {
-			case gl != wantLen:
-				*listsOK = false
-				viol(r, c, fmt.Sprintf("%sMembersLenOthers:len:%s:by=%s", prefix, dir(gl, wantLen), by), fmt.Sprintf("MembersLenOthers(node%d,%s) len=%d, present addresses of the node=%d", n, s.id, gl, wantLen), hist)
-				return
-			case gf != wantFound:
-				*listsOK = false
-				viol(r, c, fmt.Sprintf("%sMembersLenOthers:found=%v:present-under-node=%v:by=%s", prefix, gf, wantFound, by), fmt.Sprintf("MembersLenOthers(node%d,%s) found=%v, the address is present under this node=%v", n, s.id, gf, wantFound), hist)
-				return
-			case go_ != wantOthers:
-				*listsOK = false
-				viol(r, c, fmt.Sprintf("%sMembersLenOthers:others:%s:by=%s", prefix, dir(go_, wantOthers), by), fmt.Sprintf("MembersLenOthers(node%d,%s) others=%d, want %d (the address is listed %d time(s))", n, s.id, go_, wantOthers, gl-go_), hist)
-				return
+			for _, f := range pk.forms(s, allForms) {
+				udp, fn := s.forms[f].udp, s.forms[f].name
+				po := sfx(note(i, f), probeOther)
+				c["obs_MembersLenOthers"]++
+				gl, go_, gf := p.MembersLenOthers(node(n).addr, udp)
+				switch {
+				case gl != wantLen:
+					*listsOK = false
+					viol(r, c, fmt.Sprintf("%sMembersLenOthers:len:%s:by=%s", prefix, dir(gl, wantLen), by), fmt.Sprintf("MembersLenOthers(node%d,%s as %s) len=%d, present addresses of the node=%d", n, s.id, fn, gl, wantLen), hist)
+					return
+				case gf != wantFound:
+					*listsOK = false
+					viol(r, c, fmt.Sprintf("%sMembersLenOthers:found=%v:present-under-node=%v:by=%s%s", prefix, gf, wantFound, by, po), fmt.Sprintf("MembersLenOthers(node%d,%s as %s) found=%v, the address is present under this node=%v", n, s.id, fn, gf, wantFound), hist)
+					return
+				case go_ != wantOthers:
+					*listsOK = false
+					viol(r, c, fmt.Sprintf("%sMembersLenOthers:others:%s:by=%s%s", prefix, dir(go_, wantOthers), by, po), fmt.Sprintf("MembersLenOthers(node%d,%s as %s) others=%d, want %d (the address is listed %d time(s))", n, s.id, fn, go_, wantOthers, gl-go_), hist)
+					return
+				}
 			}
 		}
 	}
@@ -266,11 +415,19 @@ func sweep(r *vlib.Run, c counts, p *quicmemberlist.VerifMembersPool, m *model, 
 // returned value.
 func apply(r *vlib.Run, c counts, p *quicmemberlist.VerifMembersPool, m *model, o op, hist func() any, prefix string) {
 	s := m.slots[o.Slot]
+	fn := s.forms[o.Form].name
+	other := m.other(o.Slot, o.Form)
+	oo := sfx(other, opOther)
+	c[s.forms[o.Form].ckey]++
+	if other {
+		c["ops_other_ip_form_"+o.Kind]++
+	}
 	switch {
 	case o.isJoin():
-		mem := mkmember(s, o.Node, o.Gen)
+		mem := mkmember(s, o.Node, o.Gen, o.Form)
 		was := m.present[o.Slot]
 		m.present[o.Slot] = true
+		m.joinedAs[o.Slot] = o.Form
 		if m.cur[o.Slot] != o.Node {
 			m.prev[o.Slot], m.cur[o.Slot] = m.cur[o.Slot], o.Node
 			m.gens[o.Slot] = map[string]bool{} // last join wins: members of the old node are gone
@@ -279,19 +436,19 @@ func apply(r *vlib.Run, c counts, p *quicmemberlist.VerifMembersPool, m *model, 
 		c["op_"+o.Kind]++
 		added := p.Set(mem)
 		if added == was {
-			viol(r, c, fmt.Sprintf("%sSet:added=%v:was-present=%v", prefix, added, was), fmt.Sprintf("Set(%s) added=%v while the address was present=%v", s.id, added, was), hist)
+			viol(r, c, fmt.Sprintf("%sSet:added=%v:was-present=%v%s", prefix, added, was, oo), fmt.Sprintf("Set(%s as %s) added=%v while the address was present=%v", s.id, fn, added, was), hist)
 		}
 	default:
 		was := m.present[o.Slot]
 		m.present[o.Slot] = false
 		m.gens[o.Slot] = map[string]bool{}
 		c["op_"+o.Kind]++
-		removed, err := p.Remove(s.udp)
+		removed, err := p.Remove(s.forms[o.Form].udp)
 		if err != nil {
-			viol(r, c, prefix+"Remove:error", fmt.Sprintf("Remove(%s) error %v", s.id, err), hist)
+			viol(r, c, prefix+"Remove:error"+oo, fmt.Sprintf("Remove(%s as %s) error %v", s.id, fn, err), hist)
 		}
 		if removed != was {
-			viol(r, c, fmt.Sprintf("%sRemove:removed=%v:was-present=%v", prefix, removed, was), fmt.Sprintf("Remove(%s) removed=%v while the address was present=%v", s.id, removed, was), hist)
+			viol(r, c, fmt.Sprintf("%sRemove:removed=%v:was-present=%v%s", prefix, removed, was, oo), fmt.Sprintf("Remove(%s as %s) removed=%v while the address was present=%v", s.id, fn, removed, was), hist)
 		}
 	}
 }
@@ -322,7 +479,8 @@ func genOps(rngIntn func(int) int, slots []slot, idx []int, present map[int]bool
 			k, nd = "join-other-node", other // after a leave (or first join) under another node
 		}
 		*gen++
-		o := op{Kind: k, Slot: si, Gen: *gen, Node: nd}
+		// the form of the address argument: drawn independently for every operation
+		o := op{Kind: k, Slot: si, Gen: *gen, Node: nd, Form: rngIntn(len(slots[si].forms))}
 		ops = append(ops, o)
 		if o.isJoin() {
 			present[si], cur[si] = true, nd
@@ -333,32 +491,76 @@ func genOps(rngIntn func(int) int, slots []slot, idx []int, present map[int]bool
 	return ops
 }
 
-func fingerprint(slots []slot, ops []op) (fp string, nontrivial bool) {
+// shape of a history: what the fingerprint / evidence say about it.
+type shape struct {
+	fp                                        string
+	nontrivial                                bool
+	otherRejoin, otherLeave, otherLeaveAbsent bool // operation on an address in another byte form than its last join
+}
+
+func fingerprint(slots []slot, ops []op) shape {
 	h := fnv.New64a()
 	present := map[int]bool{}
 	cur := map[int]int{}
+	joinedAs := map[int]int{}
 	for j := range slots {
 		cur[j] = slots[j].node
+		fmt.Fprintf(h, "%s;", slots[j].id)
 	}
+	var sh shape
 	var rejoin, leaveWithSibling bool
 	for _, o := range ops {
-		fmt.Fprintf(h, "%s/%d/%d;", o.Kind, o.Slot, o.Node)
+		fmt.Fprintf(h, "%s/%d/%d/%s;", o.Kind, o.Slot, o.Node, slots[o.Slot].forms[o.Form].name)
+		ja, joined := joinedAs[o.Slot]
+		other := joined && !sameBytes(slots[o.Slot].forms[ja].udp, slots[o.Slot].forms[o.Form].udp)
 		switch {
 		case o.isJoin():
 			if present[o.Slot] {
 				rejoin = true
+				sh.otherRejoin = sh.otherRejoin || other
 			}
-			present[o.Slot], cur[o.Slot] = true, o.Node
+			present[o.Slot], cur[o.Slot], joinedAs[o.Slot] = true, o.Node, o.Form
 		case o.Kind == "leave":
 			for j := range slots {
 				if j != o.Slot && cur[j] == cur[o.Slot] && present[j] {
 					leaveWithSibling = true
 				}
 			}
+			sh.otherLeave = sh.otherLeave || other
 			present[o.Slot] = false
+		default:
+			sh.otherLeaveAbsent = sh.otherLeaveAbsent || other
 		}
 	}
-	return fmt.Sprintf("%x", h.Sum64()), rejoin && leaveWithSibling
+	sh.fp, sh.nontrivial = fmt.Sprintf("%x", h.Sum64()), rejoin && leaveWithSibling
+	return sh
+}
+
+// record registers one history as a case and counts what it contains.
+func (sh shape) record(r *vlib.Run, phase string, slots []slot) {
+	if sh.nontrivial {
+		r.Case(phase + "/" + sh.fp)
+	} else {
+		r.Eval(1)
+	}
+	n6 := 0
+	for _, s := range slots {
+		if s.v6 {
+			n6++
+		}
+	}
+	r.Count("addresses_ipv6", n6)
+	r.Count("addresses_ipv4", len(slots)-n6)
+	for k, b := range map[string]bool{"histories_with_rejoin_in_other_ip_form": sh.otherRejoin, "histories_with_leave_in_other_ip_form": sh.otherLeave, "histories_with_leave_of_absent_in_other_ip_form": sh.otherLeaveAbsent} {
+		if b {
+			r.Count(k, 1)
+		}
+	}
+}
+
+func opString(slots []slot, o op) string {
+	s := slots[o.Slot]
+	return fmt.Sprintf("%s(node%d,%s as %s)", o.Kind, o.Node, s.id, s.forms[o.Form].name)
 }
 
 func histOf(slots []slot, ops []op, upto int) func() any {
@@ -369,7 +571,7 @@ func histOf(slots []slot, ops []op, upto int) func() any {
 		}
 		var l []string
 		for i := lo; i <= upto && i < len(ops); i++ {
-			l = append(l, fmt.Sprintf("%d:%s(node%d,%s)", i, ops[i].Kind, ops[i].Node, slots[ops[i].Slot].id))
+			l = append(l, fmt.Sprintf("%d:%s", i, opString(slots, ops[i])))
 		}
 		return map[string]any{"slots": len(slots), "step": upto, "ops_tail": l}
 	}
@@ -378,22 +580,35 @@ func histOf(slots []slot, ops []op, upto int) func() any {
 func TestC37(t *testing.T) {
 	r := vlib.Start(t, "C37", vlib.LevelExploration)
 	defer r.Finish()
-	r.SetRule("case = one history of join / re-join / join-or-re-join-under-another-node / leave / leave-of-absent operations on a fresh membersPool over 2-5 nodes x 1-4 udp addresses (members built by the real NewMember), every observable (Exists, Get, Len, Traverse, MembersLen, MembersLenOthers for every node and address) compared with the model after every operation; then histories with 1 writer + 3 concurrent readers (4 goroutines), readers judging untouched addresses and count bounds, full comparison at quiescence; distinct = hash of the (kind, address) sequence; non-trivial = contains a re-join and a leave while a sibling address of the same node is present")
+	r.SetRule("case = one history of join / re-join / join-or-re-join-under-another-node / leave / leave-of-absent operations on a fresh membersPool over 2-5 nodes x 1-4 udp addresses, three of four IPv4 and one of four IPv6 (members built by the real NewMember). Every operation and every lookup names its address in a form drawn independently of the form the address joined in: IPv4 as 4-byte net.IP, 16-byte IPv4-in-IPv6 net.IP, net.ParseIP of the text, net.ResolveUDPAddr of \"ip:port\", net.UDPAddrFromAddrPort of the unmapped and of the v4-mapped netip address; IPv6 (no zone) as literal bytes, parsed text, resolved string, netip-derived. The model is keyed by the logical address (netip unmapped ip + port). Every observable (Exists, Get, Len, Traverse, MembersLen, MembersLenOthers for every node and address) is compared with the model after every operation, at the end of a history with every address named in every form; then histories with 1 writer + 3 concurrent readers (4 goroutines), readers judging untouched addresses and count bounds, full comparison at quiescence; distinct = hash of the addresses and the (kind, address, node, address form) sequence; non-trivial = contains a re-join and a leave while a sibling address of the same node is present")
 	r.Assume("a re-join is a Set for an address that is present (a new Member value), under the same node or under another node (last join wins: the address then belongs to the new node only)")
 	r.Assume("Get may return any Member value joined at that address since its last leave")
 	r.Assume("concurrent phase: one writer goroutine (the real callers whenJoined/whenLeft serialise Set/Remove under Memberlist.joinedLock) and 3 reader goroutines; readers judge exactly only addresses the writer does not touch in that phase and bounds for the counts; everything is judged exactly at quiescence")
+	r.Assume("a member address is the logical (ip, port) pair: two zone-less *net.UDPAddr values with equal Port and IP.Equal ips (4-byte and 16-byte IPv4-in-IPv6 form of one IPv4 address; separately built values of one IPv6 address) are the same address; '+other-ip-form' / ':probe=other-ip-form' in a signature = the operation / lookup named the address in another byte form than its last join did")
+
+	v6off = r.Rand(9).Intn(4)
+	r.Set("ipv6_positions_of_the_universe", fmt.Sprintf("(node+index+%d)%%4==3", v6off))
 
 	// directed history first: the three behaviours every run must exercise
 	{
-		slots := []slot{mkslot(0, 0), mkslot(0, 1), mkslot(1, 0)}
+		slots := []slot{mkslot(0, 0, false), mkslot(0, 1, false), mkslot(1, 0, false)}
 		// lookup + re-join
-		runSequential(r, slots, 2, []op{{"join", 0, 1, 0}, {"join", 1, 2, 0}, {"join", 2, 3, 1}, {"rejoin", 0, 4, 0}, {"rejoin", 0, 5, 0}, {"leave", 0, 6, 0}}, true)
+		runSequential(r, slots, 2, []op{{"join", 0, 1, 0, 1}, {"join", 1, 2, 0, 1}, {"join", 2, 3, 1, 1}, {"rejoin", 0, 4, 0, 1}, {"rejoin", 0, 5, 0, 1}, {"leave", 0, 6, 0, 1}}, true, -1)
 		// leave while a sibling address of the same node stays
-		runSequential(r, slots, 2, []op{{"join", 0, 1, 0}, {"join", 1, 2, 0}, {"join", 2, 3, 1}, {"leave", 1, 4, 0}, {"leave-absent", 1, 5, 0}, {"leave", 0, 6, 0}, {"join", 1, 7, 0}}, true)
+		runSequential(r, slots, 2, []op{{"join", 0, 1, 0, 1}, {"join", 1, 2, 0, 1}, {"join", 2, 3, 1, 1}, {"leave", 1, 4, 0, 1}, {"leave-absent", 1, 5, 0, 1}, {"leave", 0, 6, 0, 1}, {"join", 1, 7, 0, 1}}, true, -2)
 		// the same address joins under another node without leaving, leaves, joins under the first node again
-		runSequential(r, slots, 2, []op{{"join", 0, 1, 0}, {"join", 1, 2, 0}, {"rejoin-other-node", 0, 3, 1}, {"leave", 0, 4, 1}, {"join-other-node", 0, 5, 0}, {"leave", 1, 6, 0}}, true)
+		runSequential(r, slots, 2, []op{{"join", 0, 1, 0, 1}, {"join", 1, 2, 0, 1}, {"rejoin-other-node", 0, 3, 1, 1}, {"leave", 0, 4, 1, 1}, {"join-other-node", 0, 5, 0, 1}, {"leave", 1, 6, 0, 1}}, true, -3)
 		// ... and with a leave in between
-		runSequential(r, slots, 2, []op{{"join", 0, 1, 0}, {"join", 1, 2, 0}, {"leave", 0, 3, 0}, {"join-other-node", 0, 4, 1}, {"rejoin-other-node", 0, 5, 0}, {"leave", 0, 6, 0}}, true)
+		runSequential(r, slots, 2, []op{{"join", 0, 1, 0, 1}, {"join", 1, 2, 0, 1}, {"leave", 0, 3, 0, 1}, {"join-other-node", 0, 4, 1, 1}, {"rejoin-other-node", 0, 5, 0, 1}, {"leave", 0, 6, 0, 1}}, true, -4)
+
+		// the same behaviours with every operation naming its address in
+		// another form than the previous one did (forms: see mkslot; IPv4
+		// 0,3*,4 hold 4 bytes, 1,2,5 hold 16), IPv4 and IPv6 addresses
+		slots = []slot{mkslot(0, 0, false), mkslot(0, 1, false), mkslot(1, 0, true), mkslot(1, 1, true)}
+		// join, lookup, re-join, leave, leave again
+		runSequential(r, slots, 2, []op{{"join", 0, 1, 0, 0}, {"join", 1, 2, 0, 1}, {"join", 2, 3, 1, 0}, {"join", 3, 4, 1, 2}, {"rejoin", 0, 5, 0, 1}, {"rejoin", 1, 6, 0, 4}, {"rejoin", 2, 7, 1, 3}, {"leave", 0, 8, 0, 0}, {"leave-absent", 0, 9, 0, 2}, {"leave", 2, 10, 1, 1}, {"leave", 1, 11, 0, 5}, {"join", 0, 12, 0, 5}, {"leave", 0, 13, 0, 3}, {"leave", 3, 14, 1, 0}}, true, -5)
+		// join under another node in another form, with and without a leave in between
+		runSequential(r, slots, 2, []op{{"join", 0, 1, 0, 1}, {"join", 1, 2, 0, 0}, {"join", 2, 3, 1, 1}, {"rejoin-other-node", 0, 4, 1, 0}, {"rejoin-other-node", 2, 5, 0, 3}, {"leave", 0, 6, 1, 2}, {"join-other-node", 0, 7, 0, 4}, {"rejoin", 0, 8, 0, 5}, {"leave", 1, 9, 0, 1}, {"leave", 0, 10, 0, 3}, {"leave", 2, 11, 0, 0}}, true, -6)
 	}
 
 	nseq := r.N(300, 6000)
@@ -404,7 +619,7 @@ func TestC37(t *testing.T) {
 		for n := 0; n < nn; n++ {
 			na := 1 + rng.Intn(4)
 			for j := 0; j < na; j++ {
-				slots = append(slots, mkslot(n, j))
+				slots = append(slots, mkslot(n, j, universeV6(n, j)))
 			}
 		}
 		idx := make([]int, len(slots))
@@ -413,7 +628,7 @@ func TestC37(t *testing.T) {
 		}
 		gen := 0
 		ops := genOps(rng.Intn, slots, idx, map[int]bool{}, map[int]int{}, nn, 50+rng.Intn(r.N(151, 251)), &gen)
-		runSequential(r, slots, nn, ops, i < 2)
+		runSequential(r, slots, nn, ops, i < 2, i)
 	})
 
 	ncon := r.N(150, 3000)
@@ -426,13 +641,13 @@ func TestC37(t *testing.T) {
 	}
 }
 
-func runSequential(r *vlib.Run, slots []slot, nn int, ops []op, sample bool) {
-	fp, nt := fingerprint(slots, ops)
-	if nt {
-		r.Case("seq/" + fp)
-	} else {
-		r.Eval(1)
-	}
+// runSequential: i < 0 marks a directed history (every lookup names every
+// address in every form after every operation); otherwise lookups draw one
+// form each, and every form at the end of the history (thorough tier: also at
+// every step that traverses).
+func runSequential(r *vlib.Run, slots []slot, nn int, ops []op, sample bool, i int) {
+	sh := fingerprint(slots, ops)
+	sh.record(r, "seq", slots)
 	if sample {
 		var l []string
 		for k, o := range ops {
@@ -440,12 +655,13 @@ func runSequential(r *vlib.Run, slots []slot, nn int, ops []op, sample bool) {
 				l = append(l, "...")
 				break
 			}
-			l = append(l, fmt.Sprintf("%s(node%d,%s)", o.Kind, o.Node, slots[o.Slot].id))
+			l = append(l, opString(slots, o))
 		}
 		r.Sample(map[string]any{"phase": "sequential", "nodes": nn, "addresses": len(slots), "ops": len(ops), "head": l})
 	}
 	p := quicmemberlist.NewVerifMembersPool()
 	m := newModel(slots, nn)
+	pk := &picker{rng: r.Rand(4, i)}
 	listsOK := true
 	c := counts{}
 	defer c.flush(r)
@@ -459,9 +675,13 @@ func runSequential(r *vlib.Run, slots []slot, nn int, ops []op, sample bool) {
 				by = "leave-last-of-node"
 			}
 		}
+		by += sfx(m.other(o.Slot, o.Form), opOther)
+		last := k == len(ops)-1
+		traverse := k%8 == 7 || last
+		all := i < 0 || last || (traverse && r.Thorough())
 		r.Guard("sequential:"+o.Kind, o, func() {
 			apply(r, c, p, m, o, h, "")
-			sweep(r, c, p, m, by, h, &listsOK, "", k%8 == 7 || k == len(ops)-1)
+			sweep(r, c, p, m, by, h, &listsOK, "", traverse, pk, all)
 		})
 	}
 }
@@ -479,7 +699,7 @@ func runConcurrent(r *vlib.Run, i int) {
 	for n := 0; n < nn; n++ {
 		na := 2 + rng.Intn(3)
 		for j := 0; j < na; j++ {
-			slots = append(slots, mkslot(n, j))
+			slots = append(slots, mkslot(n, j, universeV6(n, j)))
 		}
 	}
 	// stable slots: about one third, spread over the nodes
@@ -507,18 +727,14 @@ func runConcurrent(r *vlib.Run, i int) {
 	prefix := genOps(rng.Intn, slots, all, present, cur, nn, 10+rng.Intn(30), &gen)
 	wops := genOps(rng.Intn, slots, moving, present, cur, nn, 20+rng.Intn(60), &gen)
 
-	fp, nt := fingerprint(slots, append(append([]op{}, prefix...), wops...))
-	if nt {
-		r.Case("con/" + fp)
-	} else {
-		r.Eval(1)
-	}
+	fingerprint(slots, append(append([]op{}, prefix...), wops...)).record(r, "con", slots)
 	if i < 2 {
 		r.Sample(map[string]any{"phase": "concurrent", "writer_ops": len(wops), "readers": R, "nodes": nn, "addresses": len(slots), "stable_addresses": len(stable), "prefix_ops": len(prefix)})
 	}
 
 	p := quicmemberlist.NewVerifMembersPool()
 	m := newModel(slots, nn)
+	pk := &picker{rng: r.Rand(5, i)}
 	c0 := counts{}
 	defer c0.flush(r)
 	listsOK := true
@@ -528,7 +744,7 @@ func runConcurrent(r *vlib.Run, i int) {
 	}
 	{
 		h := histOf(slots, prefix, len(prefix)-1)
-		r.Guard("concurrent:prefix:sweep", i, func() { sweep(r, c0, p, m, "prefix", h, &listsOK, "", true) })
+		r.Guard("concurrent:prefix:sweep", i, func() { sweep(r, c0, p, m, "prefix", h, &listsOK, "", true, pk, true) })
 	}
 	if !listsOK {
 		// the table already deviated sequentially (reported above): nothing
@@ -554,6 +770,14 @@ func runConcurrent(r *vlib.Run, i int) {
 	}
 	stableIsPresent := make([]bool, len(slots))
 	copy(stableIsPresent, m.present)
+	// is form f of untouched address k another byte form than it joined in
+	stableOther := make([][]bool, len(slots))
+	for k, s := range slots {
+		stableOther[k] = make([]bool, len(s.forms))
+		for f := range s.forms {
+			stableOther[k][f] = m.other(k, f)
+		}
+	}
 
 	var seq int64
 	order := make([]byte, len(wops)+R*40+8)
@@ -571,22 +795,34 @@ func runConcurrent(r *vlib.Run, i int) {
 		defer wg.Done()
 		c := counts{}
 		defer c.flush(r)
+		wr := r.Rand(6, i)
 		<-start
 		for k, o := range wops {
 			h := func() any {
-				return map[string]any{"phase": "concurrent-writer", "history": i, "step": k, "op": fmt.Sprintf("%s(node%d,%s)", o.Kind, o.Node, slots[o.Slot].id)}
+				return map[string]any{"phase": "concurrent-writer", "history": i, "step": k, "op": opString(slots, o)}
 			}
 			mark('w')
 			r.Guard("concurrent:"+o.Kind, o, func() {
 				apply(r, c, p, m, o, h, "concurrent:")
 				s := slots[o.Slot]
+				probe := func() (*net.UDPAddr, string, string) {
+					fi := wr.Intn(len(s.forms))
+					c[s.forms[fi].ckey]++
+					other := m.other(o.Slot, fi)
+					if other {
+						c["concurrent_writer_probes_other_ip_form"]++
+					}
+					return s.forms[fi].udp, s.forms[fi].name, sfx(other, probeOther)
+				}
 				c["obs_Exists"]++
-				if got := p.Exists(s.udp); got != m.present[o.Slot] {
-					viol(r, c, fmt.Sprintf("concurrent:Exists:got=%v:want=%v", got, m.present[o.Slot]), fmt.Sprintf("Exists(%s)=%v right after %s by the only writer", s.id, got, o.Kind), h)
+				udp, fn, po := probe()
+				if got := p.Exists(udp); got != m.present[o.Slot] {
+					viol(r, c, fmt.Sprintf("concurrent:Exists:got=%v:want=%v%s", got, m.present[o.Slot], po), fmt.Sprintf("Exists(%s as %s)=%v right after %s by the only writer", s.id, fn, got, opString(slots, o)), h)
 				}
 				c["obs_Get"]++
-				if _, found := p.Get(s.udp); found != m.present[o.Slot] {
-					viol(r, c, fmt.Sprintf("concurrent:Get:found=%v:present=%v", found, m.present[o.Slot]), fmt.Sprintf("Get(%s) found=%v right after %s by the only writer", s.id, found, o.Kind), h)
+				udp, fn, po = probe()
+				if _, found := p.Get(udp); found != m.present[o.Slot] {
+					viol(r, c, fmt.Sprintf("concurrent:Get:found=%v:present=%v%s", found, m.present[o.Slot], po), fmt.Sprintf("Get(%s as %s) found=%v right after %s by the only writer", s.id, fn, found, opString(slots, o)), h)
 				}
 			})
 			runtime.Gosched()
@@ -610,20 +846,32 @@ func runConcurrent(r *vlib.Run, i int) {
 					return map[string]any{"phase": "concurrent-reader", "history": i, "reader": g, "iteration": it, "address": s.id, "node": sn, "stable_present": want}
 				}
 				mark(byte('0' + g))
+				// every lookup names the address in a form drawn on its own
+				probe := func() (*net.UDPAddr, string, string) {
+					fi := rr.Intn(len(s.forms))
+					c[s.forms[fi].ckey]++
+					if stableOther[k][fi] {
+						c["concurrent_reader_probes_other_ip_form"]++
+					}
+					return s.forms[fi].udp, s.forms[fi].name, sfx(stableOther[k][fi], probeOther)
+				}
 				r.Guard("concurrent:reader", it, func() {
 					c["obs_Exists"]++
-					if got := p.Exists(s.udp); got != want {
-						viol(r, c, fmt.Sprintf("concurrent:reader:Exists:got=%v:want=%v", got, want), fmt.Sprintf("Exists(%s)=%v while the writer never touches this address (present=%v)", s.id, got, want), h)
+					udp, fn, po := probe()
+					if got := p.Exists(udp); got != want {
+						viol(r, c, fmt.Sprintf("concurrent:reader:Exists:got=%v:want=%v%s", got, want, po), fmt.Sprintf("Exists(%s as %s)=%v while the writer never touches this address (present=%v)", s.id, fn, got, want), h)
 					}
 					c["obs_Get"]++
-					if _, found := p.Get(s.udp); found != want {
-						viol(r, c, fmt.Sprintf("concurrent:reader:Get:found=%v:present=%v", found, want), fmt.Sprintf("Get(%s) found=%v while the writer never touches this address (present=%v)", s.id, found, want), h)
+					udp, fn, po = probe()
+					if _, found := p.Get(udp); found != want {
+						viol(r, c, fmt.Sprintf("concurrent:reader:Get:found=%v:present=%v%s", found, want, po), fmt.Sprintf("Get(%s as %s) found=%v while the writer never touches this address (present=%v)", s.id, fn, found, want), h)
 					}
 					c["obs_MembersLenOthers"]++
-					gl, _, gf := p.MembersLenOthers(node(sn).addr, s.udp)
+					udp, fn, po = probe()
+					gl, _, gf := p.MembersLenOthers(node(sn).addr, udp)
 					lo, hi := stablePresentOfNode[sn], stablePresentOfNode[sn]+len(moving) // any moved address can be under any node
 					if gf != want {
-						viol(r, c, fmt.Sprintf("concurrent:reader:MembersLenOthers:found=%v:present=%v", gf, want), fmt.Sprintf("MembersLenOthers(node%d,%s) found=%v while the writer only joins/leaves other addresses (present=%v)", sn, s.id, gf, want), h)
+						viol(r, c, fmt.Sprintf("concurrent:reader:MembersLenOthers:found=%v:present=%v%s", gf, want, po), fmt.Sprintf("MembersLenOthers(node%d,%s as %s) found=%v while the writer only joins/leaves other addresses (present=%v)", sn, s.id, fn, gf, want), h)
 					}
 					if gl < lo || gl > hi {
 						viol(r, c, "concurrent:reader:MembersLenOthers:len-out-of-bounds:"+dir(gl, lo), fmt.Sprintf("MembersLenOthers(node%d) len=%d outside [%d,%d]", sn, gl, lo, hi), h)
@@ -640,7 +888,7 @@ func runConcurrent(r *vlib.Run, i int) {
 						c["obs_Traverse"]++
 						seen := map[string]int{}
 						p.Traverse(func(mem quicmemberlist.Member) bool {
-							seen[fmt.Sprintf("%s:%d", mem.Addr().IP.String(), mem.Addr().Port)]++
+							seen[canon(mem.Addr())]++
 							return true
 						})
 						for _, k2 := range stable {
@@ -680,6 +928,6 @@ func runConcurrent(r *vlib.Run, i int) {
 		return map[string]any{"phase": "concurrent-quiescence", "history": i, "present": pres, "order": ord}
 	}
 	r.Guard("concurrent:quiescence", i, func() {
-		sweep(r, c0, p, m, "quiescence", h, &listsOK, "concurrent:", true)
+		sweep(r, c0, p, m, "quiescence", h, &listsOK, "concurrent:", true, pk, true)
 	})
 }
